@@ -4,6 +4,15 @@ NOTES = ("Technique: machine-checked proof in Lean 4 about a hand-written execut
          "correspondence run on every check (DESIGN.md). fix: commits in /repo are listed in known_findings.json.")
 NOT_APPLICABLE = {}
 CHECKS = {
+    "C17": {
+        "text": ("Lean theorems (unbounded, member abstraction): one member per view entry in walk order (members_in_walk_order); a payload follows iff the "
+                 "member is a regular file of positive size without link name, links have size 0 and no payload (payload_iff, links_have_no_payload); directories "
+                 "carry a trailing slash (dir_trailing_slash); uid/gid/xattrs/device numbers/link name are carried over (identity_preserved). Correspondence: "
+                 "WriteTar over in-memory and on-disk views (all types, long and non-UTF-8 names, xattrs, filters), archive read back with archive/tar and compared "
+                 "member by member with the model; payload length = header size."),
+        "note": ("Trusted: Lean kernel + standard axioms; the byte layout of ustar/PAX is archive/tar's and is trusted; 'extracting reproduces the view' is "
+                 "checked at member level only (no extraction to disk yet); mtime is compared as archive/tar rounds it (nearest second)."),
+    },
     "C13": {
         "text": ("Lean theorems (entry level, unbounded): without options the metadata a copied entry ends up with is the source's, with chown/utime/mode the "
                  "requested owner/time/permission bits, symlinks excepted (no_options_preserves, chown_option, utime_option, mode_option_*). Correspondence: "
